@@ -2,6 +2,7 @@ package checks
 
 import (
 	"fmt"
+	"github.com/crate-crypto/go-ipa/zzverif/vsched"
 	"math/big"
 
 	multiproof "github.com/crate-crypto/go-ipa"
@@ -40,6 +41,7 @@ type pert struct {
 	name     string
 	t        tuple
 	reprOnly bool // must not change the decision (accept)
+	nonPoint bool // a proof/statement component is not a group element at all (the zero value of the type): never accepted
 }
 
 // decideImpl runs CheckMultiProof under recover.
@@ -200,9 +202,14 @@ func perturbations(base tuple, other tuple, salt int, all bool) []pert {
 			name += " (no change of value on this base)"
 			reprOnly = true
 		}
-		ps = append(ps, pert{name, t, reprOnly})
+		ps = append(ps, pert{name: name, t: t, reprOnly: reprOnly})
 	}
 	elPerts := func(what string, get func(t *tuple) *banderwagon.Element, full bool) {
+		{
+			t := base.clone()
+			*get(&t) = banderwagon.Element{}
+			ps = append(ps, pert{name: what + ":=Element{} (not a point)", t: t, nonPoint: true})
+		}
 		add(what+"+G", func(t *tuple) { e := get(t); e.Add(e, &g) }, false)
 		if full {
 			add("-"+what, func(t *tuple) { e := get(t); e.Neg(e) }, false)
@@ -378,7 +385,7 @@ func c02Units(ctx *core.Ctx) []core.Unit {
 					}
 				}
 				if part == 0 {
-					ps = append([]pert{{"honest (unperturbed)", base, true}}, ps...)
+					ps = append([]pert{{name: "honest (unperturbed)", t: base, reprOnly: true}}, ps...)
 				}
 				for pi, p := range ps {
 					if pi%parts != part {
@@ -387,6 +394,14 @@ func c02Units(ctx *core.Ctx) []core.Unit {
 					desc := s.String() + " :: " + p.name
 					ok, err, ran := decideImpl(r, c, p.t, desc)
 					if !ran {
+						continue
+					}
+					if p.nonPoint {
+						r.Evals++
+						r.Nontrivial++
+						if ok {
+							vio(r, "c02.reject", "CheckMultiProof", desc, "never accepted: a component of the tuple is not a group element", fmt.Sprintf("accepted=%v err=%v", ok, err))
+						}
 						continue
 					}
 					acc, shape := decideRef(p.t)
@@ -600,6 +615,41 @@ func c02Units(ctx *core.Ctx) []core.Unit {
 			}
 		}
 		r.Sample(map[string]interface{}{"pattern": "AABCB: openings 0,1 share the pointer of A; 2 and 4 share B; 3 is C", "variants": "honest; last y + 1; second B claims C's value"})
+	}})
+	us = append(us, core.Unit{Name: "honest and false statements under CPU counts 1..300 (decision independent of the configuration)", Run: func(ctx *core.Ctx, r *core.Result) {
+		needRef()
+		if !vsched.Instrumented {
+			r.Note("seam", "unavailable (fallback flavour)")
+			return
+		}
+		c := conf()
+		defer setCPU(0)
+		for bi_, s := range bases[:3] {
+			base, okb := honestTuple(r, c, s)
+			if !okb {
+				continue
+			}
+			bad := base.clone()
+			one := fr.One()
+			bad.ys[len(bad.ys)-1].Add(&bad.ys[len(bad.ys)-1], &one)
+			accBad, _ := decideRef(bad)
+			for _, cpu := range []int{1, 2, 3, 5, 16, 17, 48, 64, 65, 72, 96, 128, 300} {
+				setCPU(cpu)
+				for k, t := range []tuple{base, bad} {
+					desc := fmt.Sprintf("base %d, %s statement, NumCPU/GOMAXPROCS=%d", bi_, []string{"honest", "false (last y + 1)"}[k], cpu)
+					ok, err, ran := decideImpl(r, c, t, desc)
+					if !ran {
+						continue
+					}
+					want := k == 0 || accBad
+					r.Evals++
+					r.Nontrivial++
+					if (ok && err == nil) != want {
+						vio(r, "c02.agree", "CheckMultiProof", desc, fmt.Sprintf("reference verifier: accepted=%v", want), fmt.Sprintf("accepted=%v err=%v", ok, err))
+					}
+				}
+			}
+		}
 	}})
 	us = append(us, core.Unit{Name: "one proof object edited in place between verifications and serialisations", Run: func(ctx *core.Ctx, r *core.Result) {
 		needRef()
